@@ -9,6 +9,7 @@ Statements only; lemmas are in Preflate/Proofs/Predict*.lean.
 -/
 import Preflate.Proofs.Predict
 import Preflate.Proofs.Expands
+import Preflate.Proofs.Stream
 import Preflate.Gen.Consts
 namespace Preflate
 
@@ -53,6 +54,58 @@ theorem recompress_analyze (P : Pred H) (d : List UInt8) (hd : d.length < 2 ^ 29
     ∃ blocks pad, decStream P p.plain ops = .ok (blocks, pad, []) ∧
       writeStream blocks pad = .ok (d.take (p.consumed d)) :=
   Proofs.recompress_analyze P d hd p hp ops he
+
+
+/-- BYTE LEVEL: the parser's result depends only on the bytes it consumed — removing or replacing
+    what follows `D[..compressed_size]` gives the same blocks, padding, plaintext and size. -/
+theorem parse_prefix (d : List UInt8) (p : Parsed) (h : parse d = .ok p) (x : List UInt8) :
+    parse (d.take (p.consumed d) ++ x) = .ok { p with rest := bytesToBits x } ∧
+    ({ p with rest := bytesToBits x } : Parsed).consumed (d.take (p.consumed d) ++ x) = p.consumed d :=
+  ⟨Proofs.parse_prefix d p h x, Proofs.consumed_prefix d p h x⟩
+
+/-- THE PUBLIC PAIR (Model/Stream.lean: `decompress_deflate_stream` / `recompress_deflate_stream` at the
+    level of codec operations), for ANY estimator that is a function of the parse result and stays in
+    the range the parameter header can carry, and ANY predictor family: whenever the split returns
+    Ok(r), with either verify setting, reconstruction returns exactly D[..r.size]. -/
+theorem recompress_decompress (est : Array Nat → List Block → R Params) (mk : Params → Pred H)
+    (hest : ∀ pl bl q, est pl bl = .ok q → EstimatorRange q)
+    (verify : Bool) (d : List UInt8) (hd : d.length < 2 ^ 29) (r : StreamResult)
+    (h : decompressStream est mk verify d = .ok r) :
+    recompressStream mk r.plain r.corr = .ok (d.take r.size) ∧ r.size ≤ d.length :=
+  Proofs.recompress_decompress est mk hest verify d hd r h
+
+/-- both verify settings return the same result: the verify=true block (re-read of the parameters
+    with its `assert_eq!`, reconstruction, comparison) always passes when the analysis succeeded, so it
+    changes neither Ok/Err nor r -/
+theorem verify_same (est : Array Nat → List Block → R Params) (mk : Params → Pred H)
+    (hest : ∀ pl bl q, est pl bl = .ok q → EstimatorRange q)
+    (d : List UInt8) (hd : d.length < 2 ^ 29) :
+    decompressStream est mk true d = decompressStream est mk false d :=
+  Proofs.verify_same est mk hest d hd
+
+/-- the result depends only on D[..r.size]: removing or replacing the bytes after it changes nothing -/
+theorem decompress_prefix (est : Array Nat → List Block → R Params) (mk : Params → Pred H)
+    (verify : Bool) (d : List UInt8) (r : StreamResult)
+    (h : decompressStream est mk verify d = .ok r) (x : List UInt8) :
+    decompressStream est mk verify (d.take r.size ++ x) = .ok r :=
+  Proofs.decompress_prefix est mk verify d r h x
+
+/-- Non-vacuity: with a predictor that always predicts a literal and a fixed in-range parameter
+    vector, the one-literal fixed-Huffman stream 4b 04 00 (followed by junk) is accepted with verify on. -/
+def trivialPred : Pred Unit where
+  init := ()
+  maxTokenCount := 16386
+  windowBytes := 32768
+  predictTok := fun _ _ => (.lit, none)
+  repredictTok := fun _ _ => .error .err
+  candidates := fun _ _ => []
+  update := fun _ _ _ _ => ()
+  calcBitLengths := fun f _ => f.map (fun _ => 0)
+
+def trivialParams : Params := ⟨0, 0, true, 15, 1, 5, 32767, 16383, 4096, false, false, true, 8, 16, 128, 128, 3, 0, 0⟩
+
+example : (decompressStream (fun _ _ => .ok trivialParams) (fun _ => trivialPred) true
+    [0x4b, 0x04, 0x00, 0xff, 0x17]).toBool = true := by decide +kernel
 
 /-- The context numbers the model uses are the declaration order of the enums in the source now. -/
 theorem context_numbers_match_source :
